@@ -79,8 +79,8 @@ def run(ctx):
         return
     quick = ctx.tier == "quick"
     plan = {"api": 400, "builtin": 250, "opcode": 350, "bytes": 500} if quick else \
-           {"api": 2000, "builtin": 800, "opcode": 1200, "bytes": 2000}
-    maxlen = 200 if quick else 500
+           {"api": 1200, "builtin": 500, "opcode": 800, "bytes": 1200}
+    maxlen = 200 if quick else 400
     profiles = ["dev"] if quick else ["dev", "release"]
     total, nontrivial, steps = 0, set(), 0
     dist_all = {}
